@@ -142,13 +142,13 @@ func (rm *room) resolve(states []map[ref.Key]string) map[ref.Key]string {
 	}
 	auth := rm.authFor(sets)
 	rejected := rm.isRejected
-	if t.Chance(60) && len(auth) > 0 { // buggify: an oracle that also marks a random auth event rejected
+	if !rm.fed && t.Chance(60) && len(auth) > 0 { // buggify: an oracle that also marks a random auth event rejected
 		extra := sim.Pick(t, auth).EventID()
 		rejected = func(id string) bool { return id == extra || rm.isRejected(id) }
 		r.Probe("rejected_oracle_marks_extra_event")
 	}
 	r.Op()
-	verifrt.SetSalt(0)
+	verifrt.SetSalt(rm.salt)
 	got, err := gmsl.ResolveConflictsNew(rm.ver, sets, auth, uidFor, rejected)
 	if err != nil {
 		r.Violate(r.Prop, "resolve", "error", "ResolveConflictsNew failed: %v", err)
@@ -292,7 +292,7 @@ func (rm *room) resolve(states []map[ref.Key]string) map[ref.Key]string {
 			a1, e1 := gmsl.ResolveConflicts(rm.ver, flat, pauth, uidFor, rejected)
 			verifrt.SetSalt(uint64(t.Intn(1 << 20)))
 			a2, e2 := gmsl.ResolveConflicts(rm.ver, flat2, sim.Shuffle(t, pauth), uidFor, rejected)
-			verifrt.SetSalt(0)
+			verifrt.SetSalt(rm.salt)
 			if e1 != nil || e2 != nil {
 				r.Violate("C11", "order", "deprecated_error", "ResolveConflicts failed: %v %v", e1, e2)
 			}
@@ -302,7 +302,7 @@ func (rm *room) resolve(states []map[ref.Key]string) map[ref.Key]string {
 			rm.checkUnique(a1, "C11", label)
 			continue
 		}
-		verifrt.SetSalt(0)
+		verifrt.SetSalt(rm.salt)
 		if err != nil {
 			r.Violate("C11", "order", "error", "%s failed on a permuted input: %v", label, err)
 		}
@@ -386,12 +386,28 @@ func (rm *room) step(i int) {
 	prevs := rm.pickPrevs()
 	before := rm.stateAt(prevs)
 	actor := sim.Pick(t, rm.users)
+	typ, sk, content, authFrom := rm.propose(i, actor, before)
+	n, err := rm.add(actor, prevs, before, typ, sk, content, authFrom)
+	if err != nil {
+		r.Probe("build_refused")
+		r.Logf("step %d: %s by %s on %s: build refused: %v", i, typ, actor.id, rm.shorts(prevs), err)
+		return
+	}
+	if n.rejected {
+		r.Fault("byzantine_event")
+	}
+	if len(prevs) > 1 {
+		r.Nontriv = true
+	}
+	r.Logf("step %d: %s on %s rejected=%v", i, rm.short(n.id), rm.shorts(prevs), n.rejected)
+}
+
+// propose draws what a user (honest or Byzantine) sends next, given the state
+// its server sees.
+func (rm *room) propose(i int, actor user, before map[ref.Key]string) (typ string, sk *string, content any, authFrom map[ref.Key]string) {
+	r, t := rm.r, rm.t
 	honest := !t.Chance(250)
 	mem := membershipOf(rm, before, actor.id)
-	var typ string
-	var sk *string
-	var content any
-	var authFrom map[ref.Key]string
 	other := sim.Pick(t, rm.users)
 	choice := t.Weighted([]int{3, 2, 3, 2, 2, 2, 1, 1})
 	if honest && mem != "join" {
@@ -446,19 +462,7 @@ func (rm *room) step(i int) {
 		authFrom = rm.nodes[sim.Pick(t, rm.order[1:])].after
 		r.Fault("byzantine_auth_events")
 	}
-	n, err := rm.add(actor, prevs, before, typ, sk, content, authFrom)
-	if err != nil {
-		r.Probe("build_refused")
-		r.Logf("step %d: %s by %s on %s: build refused: %v", i, typ, actor.id, rm.shorts(prevs), err)
-		return
-	}
-	if n.rejected {
-		r.Fault("byzantine_event")
-	}
-	if len(prevs) > 1 {
-		r.Nontriv = true
-	}
-	r.Logf("step %d: %s on %s rejected=%v", i, rm.short(n.id), rm.shorts(prevs), n.rejected)
+	return
 }
 
 func lvl(v any) (int64, bool) {
@@ -618,6 +622,19 @@ func body(r *sim.Run) {
 }
 
 func TestEngine(t *testing.T) {
+	if os.Getenv("VERIF_ENGINE_MODE") == "fed" {
+		sim.Main(t, &sim.Engine{
+			Name: "fedsim",
+			Body: fedBody,
+			Rule: func(p string) string {
+				return "one run = one room (version drawn as in roomsim) replicated on 2-4 simulated servers, each with its own DAG replica, durable event log, volatile state and map-iteration salt; one seeded event loop of 15-70 steps chooses among: a local user (honest or Byzantine) acts on its server's forward extremities and the PDU is broadcast; the network delivers one in-flight message (any, not the oldest: reorder) with drop / duplicate / byte-corruption faults; a link is cut or healed; a server crashes (unsynced log writes lost, not only a suffix) or restarts (replays its log in log order or in the library's topological order, under a new salt, re-fetching ancestors lost with unsynced writes); fsync; re-fetch of missing ancestors. Invariants after every processed event: the verdict and the state after an event equal what every other replica (and the same server before its restart) reached for that event; every resolution equals the reference resolver's (C10) and survives the C11 re-invocations. After the last fault: heal, restart, bounded drain (<=60 rounds) must leave no event waiting and equal forward extremities and current state on all servers; non-trivial = some event with >=2 prev events was processed; distinct = distinct event-log hash"
+			},
+			Real: []string{"EventBuilder.AddAuthEvents/Build", "NewEventFromUntrustedJSON", "NewEventFromTrustedJSON", "VerifyEventSignatures", "Allowed", "ResolveConflictsNew (+ re-invocations through the other entry points)", "ReverseTopologicalOrdering"},
+			Stub: []string{"the servers' receive / fetch-missing / persist loop (the roomserver the library leaves to its caller)", "network (in-flight queue with drop, duplicate, reorder, corrupt, partition)", "disk (append-only log with unsynced writes)", "key lookup (ledger verifier)", "map iteration order (verifrt salt per server boot)", "reference resolver (oracle)"},
+			Assumptions: []string{"a server makes its own event durable before sending it", "a PDU whose content hash does not match is dropped and fetched again rather than kept in redacted form", "per-event Allowed verdicts (C07) are trusted inside the reference resolver", "the pseudo-ID room version is not exercised"},
+		})
+		return
+	}
 	sim.Main(t, &sim.Engine{
 		Name: "roomsim",
 		Body: body,
